@@ -18,6 +18,7 @@ structure Integral (α : Type) where
 
 namespace Integral
 def new (P : Nat) (length : Nat) (value : α) : Res (Integral α) :=
+  if length = P then .err .wrongMethodParameters else
   (winNew P length value).bind fun w => .ok { window := w, value := value * (length : α) }
 
 def next (s : Integral α) (value : α) : Except Panic (α × Integral α) :=
@@ -39,7 +40,7 @@ structure Derivative (α : Type) where
 
 namespace Derivative
 def new (P : Nat) (length : Nat) (value : α) : Res (Derivative α) :=
-  if length = 0 then .err .wrongMethodParameters
+  if length = 0 ∨ length = P then .err .wrongMethodParameters
   else (winNew P length value).bind fun w => .ok { divider := 1 / (length : α), window := w }
 
 def next (s : Derivative α) (value : α) : Except Panic (α × Derivative α) :=
@@ -55,7 +56,7 @@ structure Momentum (α : Type) where
 
 namespace Momentum
 def new (P : Nat) (length : Nat) (value : α) : Res (Momentum α) :=
-  if length = 0 then .err .wrongMethodParameters
+  if length = 0 ∨ length = P then .err .wrongMethodParameters
   else (winNew P length value).bind fun w => .ok { window := w }
 
 def next (s : Momentum α) (value : α) : Except Panic (α × Momentum α) :=
@@ -71,7 +72,7 @@ structure RateOfChange (α : Type) where
 
 namespace RateOfChange
 def new (P : Nat) (length : Nat) (value : α) : Res (RateOfChange α) :=
-  if length = 0 then .err .wrongMethodParameters
+  if length = 0 ∨ length = P then .err .wrongMethodParameters
   else (winNew P length value).bind fun w => .ok { window := w }
 
 def next (s : RateOfChange α) (value : α) : Except Panic (α × RateOfChange α) :=
@@ -87,7 +88,7 @@ structure Past (β : Type) where
 
 namespace Past
 def new {β : Type} (P : Nat) (length : Nat) (value : β) : Res (Past β) :=
-  if length = 0 then .err .wrongMethodParameters
+  if length = 0 ∨ length = P then .err .wrongMethodParameters
   else (Res.ofExcept (Window.new P length value)).bind fun w => .ok { window := w }
 
 def next {β : Type} (s : Past β) (value : β) : Except Panic (β × Past β) :=
@@ -111,7 +112,7 @@ structure StDev (α : Type) where
 
 namespace StDev
 def new (P : Nat) (length : Nat) (value : α) : Res (StDev α) :=
-  if length = 0 ∨ length = 1 then .err .wrongMethodParameters
+  if length = 0 ∨ length = 1 ∨ length = P then .err .wrongMethodParameters
   else
     let fl : α := (length : α)
     (winNew P length value).bind fun w =>
@@ -139,7 +140,7 @@ structure MeanAbsDev (α : Type) where
 
 namespace MeanAbsDev
 def new (P : Nat) (length : Nat) (value : α) : Res (MeanAbsDev α) :=
-  if length = 0 then .err .wrongMethodParameters
+  if length = 0 ∨ length = P then .err .wrongMethodParameters
   else (SMA.new P length value).bind fun s => .ok { sma := s }
 
 /-- iterates the raw buffer (`as_slice`), order irrelevant for the sum in exact arithmetic -/
@@ -160,7 +161,7 @@ structure CCI (α : Type) where
 
 namespace CCI
 def new (P : Nat) (length : Nat) (value : α) : Res (CCI α) :=
-  if length = 0 then .err .wrongMethodParameters
+  if length = 0 ∨ length = P then .err .wrongMethodParameters
   else (MeanAbsDev.new P length value).bind fun m => .ok { mad := m }
 
 def next (s : CCI α) (value : α) : Except Panic (α × CCI α) :=
@@ -181,7 +182,7 @@ structure LinearVolatility (α : Type) where
 
 namespace LinearVolatility
 def new (P : Nat) (length : Nat) (value : α) : Res (LinearVolatility α) :=
-  if length = 0 then .err .wrongMethodParameters
+  if length = 0 ∨ length = P then .err .wrongMethodParameters
   else (winNew P length (0 : α)).bind fun w => .ok { window := w, prev_value := value, volatility := 0 }
 
 def next (s : LinearVolatility α) (value : α) : Except Panic (α × LinearVolatility α) :=
@@ -245,7 +246,7 @@ structure Highest (β : Type) where
 
 namespace Highest
 def new (P : Nat) (length : Nat) (value : β) : Res (Highest β) :=
-  if length = 0 then .err .wrongMethodParameters
+  if length = 0 ∨ length = P then .err .wrongMethodParameters
   else (Res.ofExcept (Window.new P length value)).bind fun w => .ok { window := w, value := value }
 
 def next (s : Highest β) (value : β) : Except Panic (β × Highest β) :=
@@ -269,7 +270,7 @@ structure Lowest (β : Type) where
 
 namespace Lowest
 def new (P : Nat) (length : Nat) (value : β) : Res (Lowest β) :=
-  if length = 0 then .err .wrongMethodParameters
+  if length = 0 ∨ length = P then .err .wrongMethodParameters
   else (Res.ofExcept (Window.new P length value)).bind fun w => .ok { window := w, value := value }
 
 def next (s : Lowest β) (value : β) : Except Panic (β × Lowest β) :=
@@ -294,7 +295,7 @@ structure HighestLowestDelta (β : Type) where
 
 namespace HighestLowestDelta
 def new (P : Nat) (length : Nat) (value : β) : Res (HighestLowestDelta β) :=
-  if length = 0 then .err .wrongMethodParameters
+  if length = 0 ∨ length = P then .err .wrongMethodParameters
   else (Res.ofExcept (Window.new P length value)).bind fun w =>
     .ok { window := w, highest := value, lowest := value }
 
@@ -333,7 +334,7 @@ def argFold (better : β → β → Bool) (init : β) (l : List β) : Nat × β 
 
 namespace HighestIndex
 def new (P : Nat) (length : Nat) (value : β) : Res (HighestIndex β) :=
-  if length = 0 then .err .wrongMethodParameters
+  if length = 0 ∨ length = P then .err .wrongMethodParameters
   else (Res.ofExcept (Window.new P length value)).bind fun w =>
     .ok { window := w, index := 0, value := value }
 
@@ -365,7 +366,7 @@ structure LowestIndex (β : Type) where
 
 namespace LowestIndex
 def new (P : Nat) (length : Nat) (value : β) : Res (LowestIndex β) :=
-  if length = 0 then .err .wrongMethodParameters
+  if length = 0 ∨ length = P then .err .wrongMethodParameters
   else (Res.ofExcept (Window.new P length value)).bind fun w =>
     .ok { window := w, index := 0, value := value }
 
@@ -436,7 +437,7 @@ structure SMM (β : Type) where
 
 namespace SMM
 def new (P : Nat) (length : Nat) (value : β) : Res (SMM β) :=
-  if length = 0 then .err .wrongMethodParameters
+  if length = 0 ∨ length = P then .err .wrongMethodParameters
   else
     let half := length / 2
     let isEven := if length % 2 = 0 then 1 else 0
@@ -485,7 +486,7 @@ namespace MedianAbsDev
 variable [BitEq α] [TotalCmp α]
 
 def new (P : Nat) (length : Nat) (value : α) : Res (MedianAbsDev α) :=
-  if length = 0 ∨ length = 1 then .err .wrongMethodParameters
+  if length = 0 ∨ length = 1 ∨ length = P then .err .wrongMethodParameters
   else (SMM.new P length value).bind fun s => .ok { smm := s, divider := 1 / (length : α) }
 
 def half : α := 1 / ((2 : Nat) : α)
